@@ -189,6 +189,16 @@ Fixpoint run_labels (s : st) (ls : list label) : option st :=
   | l :: r => match step s l with Some s' => run_labels s' r | None => None end
   end.
 
+(* What this model assumes about the source, in the encoding of the generated Gen/C24_gen.v (gen/c24.py
+   derives `gen_shape` from the AST of pipe.py, buffered_pipe.py, channel.py on every run; Props proves
+   gen_shape = assumed_shape):
+   [ OrPipe.set/clear entirely inside the lock shared by both halves            = 1 ;
+     PosixPipe set/clear/set_forever entirely inside the pipe's RLock           = 1 ;
+     BufferedPipe.feed sets the event although the buffer stays empty           = 0 ;
+     BufferedPipe event calls only at the modelled places/guards, under _lock   = 1 ;
+     Channel fileno/_handle_eof/_set_closed order, under the channel lock       = 1 ] *)
+Definition assumed_shape : list Z := [1; 1; 0; 1; 1].
+
 (* ---- finite quantification helpers (used by the reflective preservation check) -------- *)
 Definition fb (P : bool -> bool) : bool := P true && P false.
 Definition all_fl (P : option (pop * bool) -> bool) : bool :=
